@@ -22,6 +22,8 @@ def session(name, mod, x, kw):
 
 
 def worker(unit, emit):
+    if unit[0] == '__doctests__':
+        return ac.doctest_traces(emit)
     name, scripts1, scripts2, p = unit
     mod = lib.module(name)
     rnd = random.Random('%s/%s' % (p['seed'], name))
@@ -80,7 +82,7 @@ def main():
     scripts2 = gen_scripts(chk, 'Gen_Decor2R', simulate='num=%d' % (150 if quick else 3000), depth=3)
     p = {'seed': chk.seed, 'bases': 3 if quick else 25, 'pres': 30 if quick else 400, 'k': 1 if quick else 3,
          'opt_stride': 3 if quick else 1, 'lits': 400 if quick else 3000, 'lit_bases': 1 if quick else 4}
-    units = [(name, scripts1, scripts2, p) for name, _ in lib.modules()]
+    units = [(name, scripts1, scripts2, p) for name, _ in lib.modules()] + [('__doctests__',)]
     shards = chk.drive(units, worker)
     extra = run.merge_extra(shards)
     rej = chk.validate('Trace_Api', shards, own_clauses=OWN)
